@@ -170,6 +170,10 @@ def obligations(tier, seed):
         obs.append(make("three", src, three, [other, src]))
         obs.append(make("two", src, two, [other, src, other]))
         obs.append(make("mixed", src, mixed, [other]))
+        # files of every kind that span more than one granule / more than one tape block
+        multi = [S("BASBIG", 3000, "basic", ext="BAS"), S("MLBIG", 2500, "ml"), S("SMALL", 7, "ml")]
+        obs.append(make("multi-gran", src, multi, [other, src]))
+        obs.append(make("multi-gran-basic2300", src, [S("B2300", 2300, "basic", ext="BAS"), S("AFTER", 9, "ml")], [other, src]))
         obs.append(make("edge2295", src, [S("EDGE", 2295, "ml")], [other, src]))
         obs.append(make("edge2298+256", src, [S("EDGE", 2298, "ml"), S("B256", 256, "ml")], [other, src]))
         obs.append(make("sel-upper", src, two, [other], ["WORLD"], [1]))
